@@ -119,20 +119,28 @@ def run_tlc_mc(module, cfg, workers=8, timeout=900, xmx="12g", tag=None, simulat
     return r
 
 
-def run_apalache(module, inv, timeout=600):
-    """Symbolic check (Apalache, SMT) of a state invariant of spec/apalache/<module>.tla at
-    computation length 0, i.e. of an arithmetic fact over all values of its variables."""
-    out = os.path.join(WORK, "apalache", f"{module}-{inv}")
+def run_apalache(module, inv, timeout=900, length=0, init=None, cinit=None, nxt=None):
+    """Symbolic check (Apalache, SMT) of a state invariant of spec/apalache/<module>.tla: at
+    computation length 0 an arithmetic fact over all values of the variables; with init=IndInit and
+    length 1 the step of an inductive invariant."""
+    tag = "-".join(x for x in (module, inv, init or "", nxt or "", str(length)) if x)
+    out = os.path.join(WORK, "apalache", tag)
     shutil.rmtree(out, ignore_errors=True)
     t0 = time.time()
-    rc, o = sh(["apalache-mc", "check", "--length=0", f"--inv={inv}", f"--out-dir={out}", module + ".tla"],
-               timeout=timeout, cwd=os.path.join(SPEC, "apalache"))
+    cmd = ["apalache-mc", "check", f"--length={length}", f"--inv={inv}", f"--out-dir={out}"]
+    if init:
+        cmd.append(f"--init={init}")
+    if cinit:
+        cmd.append(f"--cinit={cinit}")
+    if nxt:
+        cmd.append(f"--next={nxt}")
+    rc, o = sh(cmd + [module + ".tla"], timeout=timeout, cwd=os.path.join(SPEC, "apalache"))
     shutil.rmtree(out, ignore_errors=True)
     holds = "The outcome is: NoError" in o
-    refuted = "The outcome is: Error" in o and "invariant 0 violated" in o
+    refuted = "The outcome is: Error" in o and "violated" in o
     if not (holds or refuted):
         raise ToolError(f"apalache could not decide {module}.{inv}: rc={rc} {o[-800:]}")
-    return {"cfg": f"apalache/{module}.tla --inv={inv}", "distinct": 0, "generated": 0, "depth": 0, "wall": round(time.time() - t0, 1),
+    return {"cfg": f"apalache/{module}.tla --inv={inv}" + (f" --init={init}" if init else "") + (f" --next={nxt}" if nxt else "") + f" --length={length}", "distinct": 0, "generated": 0, "depth": 0, "wall": round(time.time() - t0, 1),
             "completed": holds, "violated": inv if refuted else None, "error": None, "timeout": rc == 124, "tail": o[-600:], "simulated": False}
 
 
